@@ -264,6 +264,12 @@ def posthoc(run):
     return viols
 
 
+def asx_group_trees(run, key):
+    """repr of every as_expression() result recorded for (expression, variable) in this run."""
+    _, ag, _ = collect(run)
+    return sorted({repr(e[1]) for e in ag.get(key, [])})
+
+
 # ------------------------------------------------------------------ candidate classification
 
 def _rerun_group(scn, key):
